@@ -37,6 +37,77 @@ func (w *world) hostile(a action) {
 		t, _ := c.NewTarget()
 		t.SetImportedCap(0)
 		fillParams(c, 900+a.Q, -1, "")
+	case "call-self-target":
+		c := call(a.Q)
+		t, _ := c.NewTarget()
+		pa, _ := t.NewPromisedAnswer()
+		pa.SetQuestionId(uint32(a.Q))
+		fillParams(c, 900+a.Q, -1, "")
+	case "call-cap-then-bad-cap":
+		c := call(a.Q)
+		t, _ := c.NewTarget()
+		if a.On >= 0 {
+			pa, _ := t.NewPromisedAnswer()
+			pa.SetQuestionId(uint32(a.On))
+		} else {
+			t.SetImportedCap(0)
+		}
+		p, _ := c.NewParams()
+		s, _ := capnp.NewStruct(p.Segment(), capnp.ObjectSize{DataSize: 8, PointerCount: 1})
+		s.SetUint32(0, uint32(900+a.Q))
+		s.SetPtr(0, capnp.NewInterface(p.Segment(), 0).ToPtr())
+		tab, _ := p.NewCapTable(2)
+		tab.At(0).SetSenderHosted(33) // a new import
+		tab.At(1).SetReceiverHosted(uint32(a.N)) // no such export
+		p.SetContent(s.ToPtr())
+	case "call-unknown-target-which-with-cap":
+		c := call(a.Q)
+		t, _ := c.NewTarget()
+		t.Struct.SetUint16(4, 9)
+		fillParams(c, 900+a.Q, 34, "senderHosted")
+	case "call-transform-unknown-op-with-cap":
+		c := call(a.Q)
+		t, _ := c.NewTarget()
+		pa, _ := t.NewPromisedAnswer()
+		pa.SetQuestionId(uint32(a.On))
+		ops, _ := pa.NewTransform(2)
+		ops.At(0).SetGetPointerField(0)
+		ops.At(1).Struct.SetUint16(0, 9)
+		fillParams(c, 900+a.Q, 35, "senderHosted")
+	case "call-unknown-export-with-cap":
+		c := call(a.Q)
+		t, _ := c.NewTarget()
+		t.SetImportedCap(uint32(a.N))
+		fillParams(c, 900+a.Q, 36, "senderHosted")
+	case "call-unknown-answer-with-cap":
+		c := call(a.Q)
+		t, _ := c.NewTarget()
+		pa, _ := t.NewPromisedAnswer()
+		pa.SetQuestionId(uint32(a.N))
+		fillParams(c, 900+a.Q, 37, "senderPromise")
+	case "return-unknown-question-with-cap", "return-cap-then-bad-cap":
+		r, _ := rm.NewReturn()
+		qid := a.N
+		if a.Kind == "return-cap-then-bad-cap" {
+			// addressed to the first question the Conn has open, if any
+			w.mu.Lock()
+			if len(w.questions) > 0 {
+				qid = w.questions[len(w.questions)-1]
+			}
+			w.mu.Unlock()
+		}
+		r.SetAnswerId(uint32(qid))
+		p, _ := r.NewResults()
+		s, _ := capnp.NewStruct(p.Segment(), capnp.ObjectSize{DataSize: 8, PointerCount: 1})
+		s.SetPtr(0, capnp.NewInterface(p.Segment(), 0).ToPtr())
+		tab, _ := p.NewCapTable(2)
+		tab.At(0).SetSenderHosted(38)
+		if a.Kind == "return-cap-then-bad-cap" {
+			tab.At(1).SetReceiverHosted(77)
+		} else {
+			tab.At(1).SetSenderPromise(39)
+		}
+		p.SetContent(s.ToPtr())
 	case "bootstrap-reused-question":
 		b, _ := rm.NewBootstrap()
 		b.SetQuestionId(uint32(a.Q))
